@@ -10,6 +10,10 @@ path is committed; the evaluation context is idle again; the repaired pipeline a
 evaluate to what plain execution gives, re-using the sub-results that did complete.
 """
 import copy
+import os
+import shutil
+import sys
+import tempfile
 import json
 
 from . import common, hist, pipeline, progs
@@ -48,6 +52,17 @@ def run(ctx):
                 msteps = [{"set_store": "dict"}]
                 s.set_world(wf)
                 msteps.append({"world": progs.model_world(wf, s.extmod)})
+
+                def data_tree():
+                    """everything under the data directory: directories, links, files"""
+                    out = []
+                    if store_kind == "memory" or not os.path.isdir(s.data_dir):
+                        return out
+                    for r_, ds_, fs_ in os.walk(s.data_dir):
+                        for x in ds_ + fs_:
+                            out.append(os.path.relpath(os.path.join(r_, x), s.data_dir))
+                    return sorted(out)
+                tree_before = data_tree()
                 r, rr = s.run(entry)
                 msteps.append({"run": {"entry": entry}})
                 res.evaluations += 1
@@ -64,6 +79,8 @@ def run(ctx):
                     bad = "paths were committed although the evaluation failed: %s" % (r["synced"],)
                 elif not r["idle"]:
                     bad = "dds is still inside an evaluation context after the failure"
+                elif data_tree() != tree_before:
+                    bad = "the failed evaluation left entries under the data directory: %s" % sorted(set(data_tree()) - set(tree_before))[:6]
                 else:
                     waiting = {p for (p, g) in progs.kept_paths(wf) if victim in hist.reach(wf, g)}
                     if entry["kind"] == "keep":
@@ -119,10 +136,6 @@ def run(ctx):
                                 "stored_before_failure": completed, "repaired_executed": r2["log"]})
     # kept steps that run on worker threads of the evaluating process (a thread pool inside the evaluated function), a later
     # step fails: nothing is committed either, and the repaired pipeline evaluates to what plain execution gives
-    import os
-    import shutil
-    import sys
-    import tempfile
     real = pipeline.real_runner()
     ref = pipeline.ref_worker()
     for ti, kind in enumerate(["Boom", "KeyboardInterrupt", "KeyError"][: (3 if thorough else 2)]):
